@@ -266,6 +266,7 @@ func (r *Run) Finish() {
 		os.Exit(2)
 	}
 	fmt.Printf("%s %s: level=%s exhaustive=%v violations=%d known=%d wall=%.1fs\n", r.Property, r.Tier, r.Level, r.Exhaustive, newV, len(r.violations)-newV, time.Since(r.start).Seconds())
+	runAtExit()
 	if newV > 0 {
 		os.Exit(1)
 	}
@@ -282,6 +283,18 @@ type Partial struct {
 	Violations []Violation      `json:"violations"`
 	Samples    []any            `json:"samples"`
 	Caps       []string         `json:"caps"`
+}
+
+var atExit []func()
+
+// OnExit registers a clean-up that runs right before Finish / EmitPartial end the process (they call os.Exit, so
+// deferred functions of main would not run).
+func OnExit(f func()) { atExit = append(atExit, f) }
+
+func runAtExit() {
+	for _, f := range atExit {
+		f()
+	}
 }
 
 // Job returns the job assigned to this process ("" in the parent).
@@ -310,6 +323,7 @@ func (r *Run) EmitPartial() {
 	r.mu.Unlock()
 	b, _ := json.Marshal(p)
 	fmt.Printf("\n@@PARTIAL %s\n", b)
+	runAtExit()
 	os.Exit(0)
 }
 
